@@ -7,6 +7,7 @@ open ShellOp ShellOp.Util ShellOp.Queue
 structure St where
   m : State := {}
   s : Spec.SState := {}
+  prev : List Id := []      -- the ordinary list before the last operation (for the `iter` oracle)
 
 def showItems (q : Items) : String :=
   if q.isEmpty then "-" else String.intercalate "," (q.map showOptNat)
@@ -56,6 +57,27 @@ def step (st : St) (toks : List String) : St × String :=
     match i.toNat? with
     | some i => (st, obs st.m (showOptNat (get st.m.items i)))
     | none => (st, "bad-op")
+  | ["iterRemove", k, i] =>
+    -- a walk (Iterate) parked at its k-th element while Remove(i) is attempted: the walk holds the
+    -- read lock, so it sees the list as it was and the removal waits for it
+    match k.toNat?, i.toNat? with
+    | some k, some i =>
+      let before := st.m.items
+      let op := QOp.remove i
+      let ret := retOf st.m op
+      let m' := Queue.step st.m op
+      let blocked := if k < before.length then 1 else 0
+      ({ m := m', s := Spec.step st.s op, prev := st.s.items },
+        s!"seen={showItems before} blocked={blocked} " ++ obs m' ret)
+    | _, _ => (st, "bad-op")
+  | "oracle" :: "iter" :: rest =>
+    -- what a walk over the queue shows is a list the queue held: the one before or the one after
+    -- the concurrent removal
+    match (kv? "seen" rest).bind parseSlots with
+    | some seen =>
+      if seen == st.prev.map some || seen == st.s.items.map some then (st, "true")
+      else (st, s!"false before={showItems (st.prev.map some)} after={showItems (st.s.items.map some)}")
+    | none => (st, "bad-op")
   | "oracle" :: rest =>
     -- the property itself, evaluated on what the implementation showed:
     -- items = the ordinary list's items (hence no nil slot) and Length() = their number
@@ -71,7 +93,7 @@ def step (st : St) (toks : List String) : St × String :=
     | some op =>
       let ret := retOf st.m op
       let m' := Queue.step st.m op
-      ({ m := m', s := Spec.step st.s op }, obs m' ret)
+      ({ m := m', s := Spec.step st.s op, prev := st.s.items }, obs m' ret)
 
 def suite : Suite St := { init := {}, step := step }
 
